@@ -431,9 +431,9 @@ PROPS = {
         "Recovery is decided as bounded response on finite runs (B = 45 s, latency bound 10 s, horizon 105 s; genuine 'eventually' is not what a bounded explorer decides). A cell that cannot carry the offered load without any outage is reported as not judged instead of raising an alarm. 'accepted' is evaluated from read-only accessors at the moment the program reads its tun.",
         "distinct = distinct delivery outcome classes (clean-path runs) and distinct (outage, deliveries) classes (recovery runs)", ["recovery_runs", "recovery_probes_checked", "recovery_cells_not_judged"]),
     "C11": ea_entry("C11",
-        "The relay is the enumerated dimension (each relay is deterministic, the path is otherwise clean): every member of the family {query names: case keep/lower/upper/pseudo-random x 8-bit clean/strip/refuse x punctuation keep/'+'->'-'/'_'->'-'} x {the same 36 transformations for names and TXT text in answers} x {allowed record types} x {answer size limit none/4096/1232/512} x {EDNS0 honoured/ignored}, with fresh DNS ids per forwarded query. Quick: the 36 'same both ways' relays x 14 prefix/suffix type sets x {none, 512}, plus forced -T/-O through every fifth of them; thorough: all 36x36 combinations x 7 single types x 6 limit/EDNS0 settings, the diagonal x all 127 type sets, and every forced (type, downstream codec) through all diagonal relays. The real client runs its real autodetecting (or forced) handshake against the real server through the relay; if it returns 0, large packets offered on both sides at the same time, then small, then large ones must all arrive intact, once, in order through the same relay; and the autodetecting handshake must succeed on every relay (all of them pass Base32 both ways and answers up to 512 bytes for at least one type).",
+        "The relay is the enumerated dimension (each relay is deterministic, the path is otherwise clean): every member of the family {query names: case keep/lower/upper/pseudo-random x 8-bit clean/strip/refuse x punctuation keep/'+'->'-'/'_'->'-'} x {the same 36 transformations for names and TXT text in answers} x {allowed record types} x {answer size limit none/4096/1232/512} x {EDNS0 honoured/ignored}, with fresh DNS ids per forwarded query. Quick: the 36 'same both ways' relays x 14 prefix/suffix type sets x {none, 512}, plus forced -T/-O through every fifth of them; thorough: all 36x36 combinations x 7 single types x 6 limit/EDNS0 settings, the diagonal x all 127 type sets, and every forced (type, downstream codec) through all diagonal relays. The real client runs its real autodetecting (or forced) handshake against the real server through the relay; if it returns 0, large packets offered on both sides at the same time, then small, then large ones, then packets cut to the fragment boundaries of the settings just negotiated (compressed length k x capacity - 1, +0, +1, +2 for k = 1, 2, each direction) must all arrive intact, once, in order through the same relay; the client's userid is a dimension too (9, 10, 15 behind other parties' version requests; thorough 1..15); and the autodetecting handshake must succeed on every relay (all of them pass Base32 both ways and answers up to 512 bytes for at least one type).",
         "'Pseudo-random case' is one fixed per-position hash pattern, a finite stand-in. Known findings (not repaired, see known_findings.json): codecs whose corruption the 48-byte check pattern and the size probe cannot see ('+' in Raw TXT; forced raw/base64/base64u over text-rewriting paths).",
-        "distinct = distinct (negotiated query type, downstream codec, upstream codec, fragment-size class, delivery outcome) classes", []),
+        "distinct = distinct (negotiated query type, downstream codec, upstream codec, fragment-size class, delivery outcome) classes", ["boundary_sweep_packets"]),
     "C10": {
         "engine": "E-A netsim + E-B adversary",
         "parts": [
